@@ -348,7 +348,7 @@ def failing_exprs(root):
         "addmix": '"a" + 1', "index": f"{root}.items[9]", "split": 'split("a", "")', "to_ref": "to_ref({})",
         "self_ref": "self_ref({})", "group_ref": "group_ref({})", "kindless_ref": "kindless_ref({})",
         "b64decode": "b64decode(1)", "from_json": 'from_json("{")', "split_first": 'split_first("a", "")',
-        "split_last": 'split_last("a", "")', "split_index": 'split_index("a", "b", 5)',
+        "split_last": 'split_last("a", "")', "split_index": 'split_index("a", "b", 5)', "int_parse": 'int("http")',
     }
     # a failing sub-expression inside (or as) an argument of one of koreo's custom functions, at a place the
     # function's result depends on: the function must hand the failure on, not swallow or stringify it
@@ -422,12 +422,25 @@ SCALAR_POSITIONS = {
 }
 
 
-def plant_in_map(r, spec_map, root):
-    """add a key holding a failing sub-expression at a random position; returns (position, failure)"""
-    fname, f = r.choice(sorted(failing_exprs(root).items()))
-    pname = r.choice(sorted(MAP_POSITIONS))
+def is_static(block) -> bool:
+    """no Koreo Expression in the block (so the compiled CEL has no identifier at all)"""
+    return '"=' not in json.dumps(block)
+
+
+def plant_in_map(r, spec_map, root, block=None):
+    """add a key holding a failing sub-expression at a random position; returns (position, failure).
+    If the whole site `block` is static, the plant is identifier-free too (no variable, no macro variable): the
+    block then evaluates to the same (failing) value on every reconcile, whatever the inputs are"""
+    exprs = failing_exprs(root)
+    positions = sorted(MAP_POSITIONS)
+    static = block is not None and is_static(block)
+    if static:
+        exprs = {k: v for k, v in failing_exprs("ROOT_VAR").items() if "ROOT_VAR" not in v}
+        positions = [p for p in positions if not p.startswith("macro")]
+    fname, f = r.choice(sorted(exprs.items()))
+    pname = r.choice(positions)
     spec_map["zz"] = MAP_POSITIONS[pname](f)
-    return pname, fname
+    return ("static:" if static else "") + pname, fname
 
 
 def plant_scalar(r, root, positions=("top", "compare")):
@@ -454,6 +467,13 @@ def synthetic(r, rec):
 # ----------------------------------------------------------------------------- scenarios
 
 INPUTS = {"n": 5, "s": "str", "flag": False, "items": [1, 2, 3]}
+# every prepared Function / Workflow is reconciled more than once, with other inputs in between (a value kept from
+# one reconcile to the next must go through the same scan): pass 0 INPUTS, pass 1 INPUTS_2, pass 2 INPUTS again
+INPUTS_2 = {"n": 7, "s": "str", "flag": False, "items": [1, 2, 3], "extra": {"k": "v"}}
+
+
+def pass_inputs(case):
+    return [INPUTS, INPUTS_2, INPUTS][:case.get("passes", 2)]
 TRUE_PRED = [{"assert": "=inputs.n > 0", "skip": {"message": "never"}}]
 GVK = {"apiVersion": "verif.koreo.dev/v1", "kind": "Gizmo"}
 
@@ -463,7 +483,8 @@ def healthy_vf(r, overlay_for_rf=False):
     if r.random() < 0.6:
         spec["preconditions"] = copy.deepcopy(TRUE_PRED)
     if r.random() < 0.7:
-        spec["locals"] = {"a": "=inputs.n + 1", "m": {"k": "=inputs.s"}}
+        spec["locals"] = ({"a": "=inputs.n + 1", "m": {"k": "=inputs.s"}} if r.random() < 0.7
+                          else {"a": 6, "m": {"k": "fixed"}})          # a fully static block
     a = "=locals.a" if "locals" in spec else "=inputs.n"
     if overlay_for_rf:
         spec["return"] = {"spec": {"fromVf": a, "deep": {"er": "=inputs.s"}}}
@@ -489,7 +510,7 @@ def plant_vf(r, spec, root="inputs"):
     target = spec[site]
     if site == "return" and r.random() < 0.4:
         target = target.setdefault("w", {}) if "w" in target else target.setdefault("spec", {})
-    pos, fail = plant_in_map(r, target, root)
+    pos, fail = plant_in_map(r, target, root, block=spec[site] if site == "locals" else None)
     return {"site": site, "pos": pos, "fail": fail}
 
 
@@ -507,13 +528,18 @@ def healthy_rf(r, tag=""):
     if r.random() < 0.6:
         spec["preconditions"] = copy.deepcopy(TRUE_PRED)
     if r.random() < 0.7:
-        spec["locals"] = {"a": "=inputs.n + 1", "m": {"k": "=inputs.s"}}
+        spec["locals"] = ({"a": "=inputs.n + 1", "m": {"k": "=inputs.s"}} if r.random() < 0.7
+                          else {"a": 6, "m": {"k": "fixed"}})
+    if r.random() < 0.25:
+        spec["return"] = {"v": "fixed", "w": [{"k": 5}]}             # a fully static `return`
     a = "=locals.a" if "locals" in spec else "=inputs.n + 1"
     if r.random() < 0.2:
         spec["resourceTemplateRef"] = {"name": f'="tmpl{tag}-" + inputs.s'}
         aux["template"] = {**GVK, "spec": {"x": 6, "list": [{"k": "str"}]}}
     else:
-        spec["resource"] = {"spec": {"x": a, "list": [{"k": "=inputs.s"}]}, "metadata": {"labels": {"l": "=inputs.s"}}}
+        spec["resource"] = ({"spec": {"x": a, "list": [{"k": "=inputs.s"}]}, "metadata": {"labels": {"l": "=inputs.s"}}}
+                            if r.random() < 0.75 else
+                            {"spec": {"x": 6, "list": [{"k": "str"}]}, "metadata": {"labels": {"l": "str"}}})
     overlays = []
     if r.random() < 0.7:
         ov = {"overlay": {"spec": {"y": "=inputs.n", "deep": {"er": "=inputs.s"}}}}
@@ -521,7 +547,8 @@ def healthy_rf(r, tag=""):
             ov["skipIf"] = "=inputs.n > 100"
         overlays.append(ov)
     if r.random() < 0.5:
-        ov = {"overlayRef": {"kind": "ValueFunction", "name": "ovf" + tag}, "inputs": {"n": "=inputs.n", "s": "=inputs.s"}}
+        ov = {"overlayRef": {"kind": "ValueFunction", "name": "ovf" + tag},
+              "inputs": {"n": "=inputs.n", "s": "=inputs.s"} if r.random() < 0.75 else {"n": 5, "s": "str"}}
         if r.random() < 0.5:
             ov["skipIf"] = "=inputs.flag"
         overlays.append(ov)
@@ -574,10 +601,10 @@ def plant_rf(r, spec, aux):
         expr, d["pos"], d["fail"] = plant_scalar(r, root)
         spec[site].insert(r.randint(0, 1), {"assert": expr, "skip": {"message": "m"}})
     elif site in ("locals", "return"):
-        d["pos"], d["fail"] = plant_in_map(r, spec[site], "inputs")
+        d["pos"], d["fail"] = plant_in_map(r, spec[site], "inputs", block=spec[site])
     elif site == "resource":
         target = r.choice([spec["resource"], spec["resource"]["spec"], spec["resource"]["metadata"]["labels"]])
-        d["pos"], d["fail"] = plant_in_map(r, target, "inputs")
+        d["pos"], d["fail"] = plant_in_map(r, target, "inputs", block=spec["resource"])
     elif site == "create":
         target = r.choice([spec["create"]["overlay"], spec["create"]["overlay"]["spec"]])
         d["pos"], d["fail"] = plant_in_map(r, target, "inputs")
@@ -597,7 +624,7 @@ def plant_rf(r, spec, aux):
         elif kind == "skipIf":
             ov["skipIf"], d["pos"], d["fail"] = plant_scalar(r, "inputs")
         elif kind == "ovInputs":
-            d["pos"], d["fail"] = plant_in_map(r, ov["inputs"], "inputs")
+            d["pos"], d["fail"] = plant_in_map(r, ov["inputs"], "inputs", block=ov["inputs"])
         else:
             sub = plant_vf(r, aux["ovf"], root="resource")
             d.update(sub)
@@ -618,6 +645,8 @@ def healthy_wf(r):
         inputs = {"n": "=parent.n", "s": "=parent.s", "flag": "=parent.flag"}
         if k == 1 and r.random() < 0.7:
             inputs["prev"] = "=steps.step_0"
+        elif r.random() < 0.25:
+            inputs = {"n": 5, "s": "str", "flag": False}                # fully static step inputs
         step["inputs"] = inputs
         if r.random() < 0.4:
             step["skipIf"] = "=parent.flag"
@@ -625,7 +654,8 @@ def healthy_wf(r):
             step["forEach"] = {"itemIn": r.choice(["=parent.items", "=[1, 2]", "=parent.items.map(x, x + 1)"]),
                                "inputKey": "item"}
         if r.random() < 0.5:
-            step["state"] = {f"state_{k}": r.choice(["=value", '="fixed"']), "nested": {"a": '="n"', "b": [1, "=value"]}}
+            step["state"] = ({f"state_{k}": r.choice(["=value", '="fixed"']), "nested": {"a": '="n"', "b": [1, "=value"]}}
+                             if r.random() < 0.6 else {f"state_{k}": "fixed", "nested": {"a": "n", "b": [1, 2]}})
         if kind == "vf":
             fns[f"vf-{k}"] = ("vf", healthy_vf(r))
             step["ref"] = {"kind": "ValueFunction", "name": f"vf-{k}"}
@@ -657,7 +687,7 @@ def plant_wf(r, fns, wf, aux):
     site = r.choice(sites)
     d = {"site": f"step[{k}].{site}"}
     if site == "inputs":
-        d["pos"], d["fail"] = plant_in_map(r, step["inputs"], "parent")
+        d["pos"], d["fail"] = plant_in_map(r, step["inputs"], "parent", block=step["inputs"])
     elif site == "skipIf":
         step["skipIf"], d["pos"], d["fail"] = plant_scalar(r, "parent")
     elif site == "forEach":
@@ -665,7 +695,8 @@ def plant_wf(r, fns, wf, aux):
     elif site == "refSwitch":
         step["refSwitch"]["switchOn"], d["pos"], d["fail"] = plant_scalar(r, "inputs", positions=("top",))
     elif site == "state":
-        d["pos"], d["fail"] = plant_in_map(r, r.choice([step["state"], step["state"]["nested"]]), "value")
+        d["pos"], d["fail"] = plant_in_map(r, r.choice([step["state"], step["state"]["nested"]]), "value",
+                                           block=step["state"])
     else:
         names = sorted(n for n in fns if n.split("-")[1] == str(k))
         name = r.choice(names)
@@ -763,19 +794,23 @@ class Impl:
                 return {"prepare": self.outcome(fn)}
             sites = {}
             vf_sites(fn, "vf.", None, sites)
-            self.rec.reset(sites, self.injection(case))
-            obs = {"structure": vf_wire(fn)}
-            self.rec.active = True
-            try:
-                out = await reconcile_value_function("wf.spec.steps.s", fn, self.celpy.json_to_cel(INPUTS))
-                obs["outcome"] = self.outcome(out)
-            except BaseException as e:  # nothing may escape
-                obs["escaped"] = repr(e)
-            finally:
-                self.rec.active = False
-            obs["events"] = self.rec.events
-            obs["failed_inside"] = {str(i): n for i, n in self.rec.failed_inside.items()}
-            return obs
+
+            async def one_pass(inputs):
+                self.rec.reset(sites, self.injection(case))
+                obs = {"structure": vf_wire(fn)}
+                self.rec.active = True
+                try:
+                    out = await reconcile_value_function("wf.spec.steps.s", fn, self.celpy.json_to_cel(inputs))
+                    obs["outcome"] = self.outcome(out)
+                except BaseException as e:  # nothing may escape
+                    obs["escaped"] = repr(e)
+                finally:
+                    self.rec.active = False
+                obs["events"] = self.rec.events
+                obs["failed_inside"] = {str(i): n for i, n in self.rec.failed_inside.items()}
+                return obs
+
+            return await self.passes(case, one_pass)
 
         return ku.run(go())
 
@@ -811,27 +846,31 @@ class Impl:
                 return {"prepare": self.outcome(fn)}
             if not isinstance(fn.crud_config.overlays, (list, tuple)):
                 return {"prepare": self.outcome(fn.crud_config.overlays)}
-            cl = Cluster()
             live = self.live_object(case["aux"])
-            if live is not None:
-                cl.put(GVK["apiVersion"], "gizmos", "ns", "str", live)
             sites = {}
             rf_sites(fn, structure, None, sites)
-            self.rec.reset(sites, self.injection(case))
-            obs = {"structure": rf_wire(fn, structure), "live": live}
-            self.rec.active = True
-            try:
-                res = await reconcile_resource_function(cl, "wf.spec.steps.s", fn, ("ns", dict(ku.OWNER_REF)),
-                                                        self.celpy.json_to_cel(INPUTS))
-                obs["outcome"] = self.outcome(res.outcome)
-            except BaseException as e:
-                obs["escaped"] = repr(e)
-            finally:
-                self.rec.active = False
-            obs["events"] = self.rec.events
-            obs["failed_inside"] = {str(i): n for i, n in self.rec.failed_inside.items()}
-            obs["requests"] = self.requests(cl)
-            return obs
+
+            async def one_pass(inputs):
+                cl = Cluster()          # the same cluster situation on every pass
+                if live is not None:
+                    cl.put(GVK["apiVersion"], "gizmos", "ns", "str", live)
+                self.rec.reset(sites, self.injection(case))
+                obs = {"structure": rf_wire(fn, structure), "live": live}
+                self.rec.active = True
+                try:
+                    res = await reconcile_resource_function(cl, "wf.spec.steps.s", fn, ("ns", dict(ku.OWNER_REF)),
+                                                            self.celpy.json_to_cel(inputs))
+                    obs["outcome"] = self.outcome(res.outcome)
+                except BaseException as e:
+                    obs["escaped"] = repr(e)
+                finally:
+                    self.rec.active = False
+                obs["events"] = self.rec.events
+                obs["failed_inside"] = {str(i): n for i, n in self.rec.failed_inside.items()}
+                obs["requests"] = self.requests(cl)
+                return obs
+
+            return await self.passes(case, one_pass)
 
         return ku.run(go())
 
@@ -846,7 +885,7 @@ class Impl:
 
         async def go():
             ku.reset()
-            cl = Cluster()
+            live_puts = []
             for name, (kind, spec) in case["fns"].items():
                 if kind == "vf":
                     await ku.offer_value_function(name, spec)
@@ -905,29 +944,47 @@ class Impl:
                         for nm in names:
                             live = self.live_object(aux, nm)
                             if live is not None:
-                                cl.put(GVK["apiVersion"], "gizmos", "ns", nm, live)
-            self.rec.reset(sites, self.injection(case))
-            obs = {"steps": steps_wire}
-            self.rec.active = True
-            try:
-                res = await reconcile_workflow(cl, "wf", ("ns", dict(ku.OWNER_REF)), self.celpy.json_to_cel(INPUTS), wf)
-                obs["outcome"] = self.outcome(res.result)
-                obs["state_err"] = py_has_err(res.state)
-                obs["state_errtext"] = error_text_in(res.state)
-                obs["state_keys"] = sorted(str(k) for k in res.state.keys())
-                obs["state_errors"] = {str(k): str(v) for k, v in res.state_errors.items()}
-                obs["conditions"] = [{"type": c.get("type"), "reason": c.get("reason"), "location": c.get("location"),
-                                      "message": c.get("message")} for c in res.conditions]
-            except BaseException as e:
-                obs["escaped"] = repr(e)
-            finally:
-                self.rec.active = False
-            obs["events"] = self.rec.events
-            obs["failed_inside"] = {str(i): n for i, n in self.rec.failed_inside.items()}
-            obs["requests"] = self.requests(cl)
-            return obs
+                                live_puts.append((nm, live))
+
+            async def one_pass(inputs):
+                cl = Cluster()          # the same cluster situation on every pass
+                for nm, live in live_puts:
+                    cl.put(GVK["apiVersion"], "gizmos", "ns", nm, live)
+                self.rec.reset(sites, self.injection(case))
+                obs = {"steps": copy.deepcopy(steps_wire)}
+                self.rec.active = True
+                try:
+                    res = await reconcile_workflow(cl, "wf", ("ns", dict(ku.OWNER_REF)), self.celpy.json_to_cel(inputs), wf)
+                    obs["outcome"] = self.outcome(res.result)
+                    obs["state_err"] = py_has_err(res.state)
+                    obs["state_errtext"] = error_text_in(res.state)
+                    obs["state_keys"] = sorted(str(k) for k in res.state.keys())
+                    obs["state_errors"] = {str(k): str(v) for k, v in res.state_errors.items()}
+                    obs["conditions"] = [{"type": c.get("type"), "reason": c.get("reason"), "location": c.get("location"),
+                                          "message": c.get("message")} for c in res.conditions]
+                except BaseException as e:
+                    obs["escaped"] = repr(e)
+                finally:
+                    self.rec.active = False
+                obs["events"] = self.rec.events
+                obs["failed_inside"] = {str(i): n for i, n in self.rec.failed_inside.items()}
+                obs["requests"] = self.requests(cl)
+                return obs
+
+            return await self.passes(case, one_pass)
 
         return ku.run(go())
+
+    async def passes(self, case, one_pass):
+        """reconcile the same prepared object once per entry of pass_inputs; the first observation carries the others"""
+        all_obs = []
+        for i, inputs in enumerate(pass_inputs(case)):
+            o = await one_pass(inputs)
+            o["pass"] = i
+            all_obs.append(o)
+        first = all_obs[0]
+        first["later"] = all_obs[1:]
+        return first
 
     def run(self, case):
         return {"vf": self.run_vf, "rf": self.run_rf, "wf": self.run_wf}[case["kind"]](case)
@@ -951,7 +1008,19 @@ def step_of(site_name):
 
 
 def complaints(case, obs):
-    """the property's clauses on what the real code did; a description or None"""
+    """every reconcile of the same prepared object must satisfy the property"""
+    what = complaints_one(case, obs)
+    if what is not None:
+        return what
+    for later in obs.get("later", []):
+        what = complaints_one(case, later)
+        if what is not None:
+            return f"reconcile #{later['pass'] + 1} of the same prepared object: {what}"
+    return None
+
+
+def complaints_one(case, obs):
+    """the property's clauses on what the real code did in one reconcile; a description or None"""
     if "prepare" in obs:
         return None
     if "escaped" in obs:
@@ -1283,7 +1352,7 @@ def run(tier: str) -> int:
             ck.disagree({"kind": "scan", "tree": t}, ans, {"found": found}, "scan")
 
     # ---- (c) Functions and steps
-    n = 3000 if tier == "quick" else 50000
+    n = 1700 if tier == "quick" else 30000      # prepared objects; each is reconciled twice
     cases, observations = [], []
     for _ in range(n):
         case = gen_case(r, impl.rec)
@@ -1301,16 +1370,30 @@ def run(tier: str) -> int:
             continue
         cases.append(case)
         observations.append(obs)
+    flat = [(c, p) for c, o in zip(cases, observations) for p in [o] + o.get("later", [])]
     try:
-        answers = drv.ask([model_request(c, o) for c, o in zip(cases, observations)])
+        answers = drv.ask([model_request(c, p) for c, p in flat])
     except Infra as e:
         if ck.build_ok:
             raise
-        answers = [None] * len(cases)
+        answers = [None] * len(flat)
         ck.notes.append(f"model driver unavailable: {e}")
 
-    for case, obs, ans in zip(cases, observations, answers):
+    # the model, fed each reconcile's recorded answers, against that reconcile
+    for (case, p), ans in zip(flat, answers):
         ck.evaluated()
+        ck.count(f"reconcile-pass:{p.get('pass', 0)}")
+        if ans is None:
+            continue
+        if "error" in ans:
+            raise Infra(f"driver rejected a request: {ans['error']}")
+        diff = compare(case, p, ans)
+        if diff is not None:
+            ck.disagree({"case": case, "pass": p.get("pass", 0), "events": p.get("events"), "outcome": p.get("outcome")},
+                        {k: ans.get(k) for k in ("res", "evals", "outs")}, {"requests": p.get("requests")},
+                        (f"reconcile #{p.get('pass', 0) + 1}: " if p.get("pass") else "") + diff)
+
+    for case, obs in zip(cases, observations):
         bad = [(nm, a) for nm, a in obs.get("events", []) if is_bad(a)]
         ck.count(f"kind:{case['kind']}")
         ck.count(f"stream:{case['stream']}")
@@ -1342,14 +1425,6 @@ def run(tier: str) -> int:
             ck.violate({"case": small, "events": obs2.get("events"), "outcome": obs2.get("outcome"),
                         "escaped": obs2.get("escaped"), "requests": obs2.get("requests")},
                        complaints(small, obs2) or what)
-        if ans is None:
-            continue
-        if "error" in ans:
-            raise Infra(f"driver rejected a request: {ans['error']}")
-        diff = compare(case, obs, ans)
-        if diff is not None:
-            ck.disagree({"case": case, "events": obs.get("events"), "outcome": obs.get("outcome")},
-                        {k: ans.get(k) for k in ("res", "evals", "outs")}, {"requests": obs.get("requests")}, diff)
 
     if tier == "thorough":
         ck.leanchecker()
